@@ -27,6 +27,11 @@ Reference (written from docs/unauthorized-spec.md and the property text, not fro
     proxy-injected headers (declared leaf / mTLS / require-mode gate / proxy_auth_headers / proxy_proof_required —
     an allow-mode gate does NOT count); absent (never "false", no ``proxy_hint`` key) otherwise; and the
     (header, hint) pair is identical over ALL 401s of the app.
+History half.  A 401 is a function of the request alone: on {single, chain2, require_all(allow, leaf)} x {undeclared,
+declared} apps every sequence of length 2 (thorough: <=3) over {8 failure kinds sharing ONE detail text} x {JSON, HTML} is
+played on one app instance, plus a sequence that overflows the serializer's bounded body cache; every response must be
+equal — in status, VGI-Auth-Reason, proxy-note header, no-store, content type, envelope reason and proxy_hint — to the
+answer of a fresh app to the same request (page markup and detail wording are not judged).
 Client half.  ``_parse_unauthorized`` and the real client fed by a stub transport answering 401 with each body of a
 corpus (valid envelopes, unknown/ill-typed reasons, non-object JSON, HTML, binary, empty, 1 MB, NaN, UTF-16,
 nesting depth 10..100000 closed and unclosed): must yield ``AuthenticationError`` whose ``reason`` is in the closed
@@ -50,7 +55,8 @@ RULE = (
     "chain(mtls,leaf)} x declarations{leaf0 declared?, proxy_auth_headers?, proxy_proof_required?} (quick: 4 of the 8 "
     "declaration combos, chain3 over 8 behaviours; thorough: all 8, chain3 over all 16); per app every behaviour tuple "
     "(16 leaf behaviours) x Accept{absent,*/*,application/json,xhtml-without-text/html,text/html,browser list} x credential-header variants, "
-    "plus the same call through the real client; client corpus of 401 bodies x {_parse_unauthorized, real client over a "
+    "plus the same call through the real client; history pass: 6 apps x all sequences of length 2 (thorough <=3) over 8 "
+    "same-detail failure kinds x {json,html} + one 300-request cache-overflow sequence, each response compared with a fresh app's; client corpus of 401 bodies x {_parse_unauthorized, real client over a "
     "stub transport}; one evaluation = one HTTP exchange or one parse; non-trivial = a 401/503 was produced (class = shape, "
     "reason, accept class, note?) or a corpus body was parsed"
 )
@@ -86,6 +92,12 @@ BEH.update({
     "proof": ("P", frozenset(["proxy_required"]), frozenset()),
 })
 ALL_B = list(BEH)
+# history pass only: every failure kind with ONE shared detail text (a validator that keeps its detail uniform)
+U_B = ["u_" + r for r in CLOSED] + ["u_ve", "u_pe"]
+for _r in CLOSED:
+    BEH["u_" + _r] = ("V", frozenset([_r]), frozenset([_r]))
+BEH["u_ve"] = BEH["ve"]
+BEH["u_pe"] = BEH["pe"]
 SMALL_B = ["ok", "down", "af_missing_credential", "af_expired_credential", "ve", "ve_duck", "pe", "proof"]
 ACCEPTS = [None, "*/*", "application/json", "application/xhtml+xml,text/plain;q=0.5", "text/html", "text/html,application/xhtml+xml,application/xml;q=0.9,*/*;q=0.8"]
 
@@ -112,6 +124,13 @@ def make_leaf(i: int) -> Any:
             raise AuthUnavailableError("idp down", retry_after=7)
         if b.startswith("af_"):
             raise AuthFailure(AuthReason(b[3:]), f"detail {b}")
+        if b.startswith("u_"):
+            detail = req.get_header(f"X-D{i}") or "token not accepted"
+            if b == "u_ve":
+                raise ValueError(detail)
+            if b == "u_pe":
+                raise PermissionError(detail)
+            raise AuthFailure(AuthReason(b[2:]), detail)
         if b == "ve":
             raise ValueError("bad credential")
         if b == "ve_empty":
@@ -482,6 +501,103 @@ def run_app(ctx: Ctx, sh: dict[str, Any], d: dict[str, bool], only: dict[str, An
     ctx.extra["distinct_401_notes_max"] = max(ctx.extra.get("distinct_401_notes_max", 0), len(notes))
 
 
+# ------------------------------------------------------------------ history independence
+H_ACCEPTS = [None, "text/html"]
+H_SHAPES = [{"shape": "single"}, {"shape": "chain", "n": 2}, {"shape": "req_all", "mode": "allow", "inner": True}]
+H_DECLS = [{"leaf": False, "param": False, "flag": False}, {"leaf": True, "param": False, "flag": False}]
+
+
+def _snap(res: Any) -> tuple[Any, ...]:
+    """Projection of a response onto what the property states (page markup and detail wording are not judged)."""
+    hl = {k.lower(): v for k, v in dict(res.headers).items()}
+    ctype = (hl.get("content-type") or "").lower().split(";")[0].strip()
+    env_reason: Any = None
+    env_hint: Any = None
+    if ctype == "application/json":
+        try:
+            env = json.loads(res.content)
+        except ValueError:
+            env = None
+        if isinstance(env, dict):
+            env_reason, env_hint = env.get("reason"), env.get("proxy_hint")
+        else:
+            env_reason = "<unparseable>"
+    fields = (
+        ("status", res.status_code), ("VGI-Auth-Reason", hl.get("vgi-auth-reason")), ("VGI-Auth-Proxy-Required", hl.get("vgi-auth-proxy-required")),
+        ("no-store", "no-store" in (hl.get("cache-control") or "").lower()), ("content-type", ctype), ("envelope.reason", env_reason), ("envelope.proxy_hint", env_hint),
+    )
+    return (res.status_code, fields, bytes(res.content)[:120])
+
+
+def history_sequences(ctx: Ctx) -> Any:
+    syms = [(b, a) for b in U_B for a in H_ACCEPTS]
+    depth = 2 if ctx.quick else 3
+    for n in range(2, depth + 1):
+        yield from itertools.product(syms, repeat=n)
+
+
+def run_history(ctx: Ctx, sh: dict[str, Any], d: dict[str, bool], only: list[Any] | None = None) -> None:
+    """A 401 is a function of the request alone: after ANY history on one app it equals the fresh app's answer."""
+    import falcon.testing
+
+    url, body, bh = base()["req"]
+    n_leaves = build_auth(sh, d)[1]
+
+    def send(app: Any, sym: tuple[Any, ...]) -> Any:
+        b, accept = sym[0], sym[1]
+        h = {**bh, "X-B0": b}
+        for i in range(1, n_leaves):
+            h[f"X-B{i}"] = "af_missing_credential"
+        if len(sym) > 2:
+            h["X-D0"] = sym[2]
+        if accept is not None:
+            h["Accept"] = accept
+        return falcon.testing.simulate_request(app, method="POST", path=url, body=body, headers=h)
+
+    def fresh() -> Any:
+        return make_app(build_auth(sh, d)[0], d)
+
+    ref: dict[tuple[Any, ...], tuple[Any, ...]] = {}
+
+    def want(sym: tuple[Any, ...]) -> tuple[Any, ...]:
+        if sym not in ref:
+            ref[sym] = _snap(send(fresh(), sym))
+        return ref[sym]
+
+    def play(seq: list[tuple[Any, ...]], label: str) -> None:
+        app = fresh()
+        for k, sym in enumerate(seq):
+            got = _snap(send(app, sym))
+            exp = want(sym)
+            if only is None:
+                ctx.case(
+                    sample={"history": [list(x) for x in seq[: k + 1]], "status": got[0], "reason": dict(got[1]).get("VGI-Auth-Reason")} if ctx.evaluations % 1999 == 7 else None,
+                    nontrivial=("history", sh["shape"], sym[0], "html" if sym[1] else "json", min(k, 3), label) if got[0] == 401 else None,
+                    outcome=("history", got[0], dict(got[1]).get("VGI-Auth-Reason"), sym[1] is not None),
+                )
+            if got[1] != exp[1]:
+                prev = seq[k - 1][0] if k else "-"
+                what = next(name for (name, a), (_n, b) in zip(got[1], exp[1], strict=True) if a != b)
+                ctx.fail(
+                    f"401-depends-on-history:{what}:{'html' if sym[1] else 'json'}:{label}",
+                    f"shape={sh} decl={d}: after {[x[0] for x in seq[:k]]} the request {sym[0]} (Accept={sym[1]!r}) is answered differently from a fresh app: "
+                    f"{what} differs (previous={prev}); got reason header {dict(got[1]).get('VGI-Auth-Reason')!r}, body {got[2][:100]!r}; fresh app body {exp[2][:100]!r}",
+                    {"history": {"sh": sh, "d": d, "seq": [list(x) for x in seq[: k + 1]]}},
+                )
+                return
+
+    if only is not None:
+        play([tuple(x) for x in only], "replay")
+        return
+    for seq in history_sequences(ctx):
+        play(list(seq), "short")
+    # cache overflow: 70 distinct detail texts (the serializer's body cache is bounded), then every symbol again twice
+    fill = [("u_ve", a, f"detail #{j}") for j in range(70) for a in H_ACCEPTS]
+    tail = [(b, a) for b in U_B for a in H_ACCEPTS]
+    play(fill + tail + list(reversed(tail)) + fill[:6], "overflow")
+    ctx.extra["history_apps"] = ctx.extra.get("history_apps", 0) + 1
+
+
 # ------------------------------------------------------------------ client corpus
 def corpus() -> list[tuple[str, bytes, str | None]]:
     """(name, body, reason the envelope validly states or None)."""
@@ -598,6 +714,11 @@ def run(ctx: Ctx) -> None:
         if not ctx.mine():
             continue
         run_app(ctx, sh, d)
+    for sh in H_SHAPES:
+        for d in H_DECLS:
+            if not ctx.mine():
+                continue
+            run_history(ctx, sh, d)
     for name, body, valid in corpus():
         if not ctx.mine():
             continue
@@ -611,5 +732,9 @@ def replay(ctx: Ctx, case: dict[str, Any]) -> None:
         for name, body, valid in corpus():
             if name == case["corpus"]:
                 run_corpus_item(ctx, name, body, valid, count=False)
+        return
+    if "history" in case:
+        h = case["history"]
+        run_history(ctx, h["sh"], h["d"], only=h["seq"])
         return
     run_app(ctx, case["sh"], case["d"], only=case if case.get("behs") is not None else None)
